@@ -2,7 +2,6 @@ from __future__ import annotations
 
 import base64
 import hashlib
-import math
 import re
 from typing import Any, Optional
 
@@ -32,45 +31,48 @@ class BLOB:
         return self.size
 
 
+_NUMBER_FIELD = r"(?:\d+\.?\d*|\.\d+)"
+_NUMBER_RE = re.compile(
+    r"^([+-]?)(%s)(?:[:; ](%s))?(?:[:; ](%s))?$"
+    % (_NUMBER_FIELD, _NUMBER_FIELD, _NUMBER_FIELD)
+)
+_SEXAGESIMAL_FRACTION_BASE = {3: 60, 5: 600, 6: 3600, 8: 36000, 9: 360000}
+
+
 def str_to_num(s: str, fmt: str) -> Any[float, int]:
     if s is None:
         return None
     if not isinstance(s, str):
         s = str(s)
+    s = s.strip()
 
     sexagesimal_match = re.match(r"^%(\d*)\.(\d+)m$", fmt)
     if sexagesimal_match:
         fraction_length = int(sexagesimal_match.groups()[1])
-        assert fraction_length in (
-            3,
-            5,
-            6,
-            8,
-            9,
+        assert (
+            fraction_length in _SEXAGESIMAL_FRACTION_BASE
         ), f"Invalid sexagesimal number format: {fmt}"
 
-        regexps = {
-            3: r"^(\-?\d+)[:; ](\d{2})$",
-            5: r"^(\-?\d+)[:; ](\d{2}\.\d+)$",
-            6: r"^(\-?\d+)[:; ](\d{2})[:; ](\d{2})$",
-            8: r"^(\-?\d+)[:; ](\d{2})[:; ](\d{2}.\d+)$",
-            9: r"^(\-?\d+)[:; ](\d{2})[:; ](\d{2}.\d+)$",
-        }
-
-        num_match = re.match(regexps[fraction_length], s)
-        if not num_match:
+    # INDI allows a peer to send any number syntax regardless of the
+    # property's format: integer, decimal or sexagesimal with ':', ';' or
+    # blank separators. The sign applies to the whole magnitude.
+    num_match = _NUMBER_RE.match(s)
+    if not num_match:
+        try:
+            return float(s)
+        except ValueError:
             raise ValueError("Cannot convert string to number")
-        num_match_groups = num_match.groups()
-        wholes = num_match_groups[0]
-        minutes = num_match_groups[1]
-        seconds = num_match_groups[2] if fraction_length in (6, 8, 9) else 0
 
-        return float(wholes) + (float(minutes) / 60) + (float(seconds) / 3600)
+    sign, wholes, minutes, seconds = num_match.groups()
+    if minutes is None:
+        if "." in s:
+            return float(s)
+        return int(s)
 
-    if "." in s:
-        return float(s)
-
-    return int(s)
+    value = float(wholes) + float(minutes) / 60
+    if seconds is not None:
+        value += float(seconds) / 3600
+    return -value if sign == "-" else value
 
 
 def num_to_str(n: Optional[float], fmt: str) -> Optional[str]:
@@ -80,28 +82,30 @@ def num_to_str(n: Optional[float], fmt: str) -> Optional[str]:
     sexagesimal_match = re.match(r"^%(\d*)\.(\d+)m$", fmt)
     if sexagesimal_match:
         fraction_length = int(sexagesimal_match.groups()[1])
-        assert fraction_length in (3, 5, 6, 8, 9)
+        assert fraction_length in _SEXAGESIMAL_FRACTION_BASE
 
-        w = math.floor(n)
-        m = (n - w) * 60
+        # same conventions as libindi's fs_sexa(): round the magnitude to the
+        # format's resolution first (so that fields carry properly), the sign
+        # applies to the whole value
+        base = _SEXAGESIMAL_FRACTION_BASE[fraction_length]
+        sign = "-" if n < 0 else ""
+        w, f = divmod(int(round(abs(n) * base)), base)
 
         if fraction_length == 3:
-            return f"{w}:{m:02.0f}"
+            return f"{sign}{w}:{f:02d}"
 
         if fraction_length == 5:
-            return f"{w}:{m:04.1f}"
-
-        mf = math.floor(m)
-        s = (m - mf) * 60
-        m = mf
+            return f"{sign}{w}:{f // 10:02d}.{f % 10}"
 
         if fraction_length == 6:
-            return f"{w}:{m:02d}:{s:02.0f}"
+            return f"{sign}{w}:{f // 60:02d}:{f % 60:02d}"
 
         if fraction_length == 8:
-            return f"{w}:{m:02d}:{s:04.1f}"
+            m, r = divmod(f, 600)
+            return f"{sign}{w}:{m:02d}:{r // 10:02d}.{r % 10}"
 
         if fraction_length == 9:
-            return f"{w}:{m:02d}:{s:05.2f}"
+            m, r = divmod(f, 6000)
+            return f"{sign}{w}:{m:02d}:{r // 100:02d}.{r % 100:02d}"
 
     return fmt % n
